@@ -286,6 +286,11 @@ CHECKS["C20"] = {
         {"name": "protected", "pkg": "internal/state", "pkgname": "state", "entry": "VerifC20Protected",
          "files": ["zz_verif_c20.go", "zz_verif_c17.go"] + STATE_FILES, "with": ["verifdb"], "gen_stubs": [TX_STUB],
          "params": {"quick": [{}], "thorough": [{}]}, "cover": []},
+        {"name": "wire", "pkg": "internal/session", "pkgname": "session", "entry": "VerifC20Wire", "files": ["zz_verif_c18.go", "zz_verif_c18b.go", "zz_verif_c01.go", "zz_verif_c01idle.go", "zz_verif_c01idle2.go", "zz_verif_c01wire.go"],
+         "with": ["state_export", "backend_export", "verifdb"], "goroutines": True, "concrete_time": True, "replay_timeout_s": 90,
+         "extra_overlay": {"internal/response/zz_verif_decode.go": "internal/response/zz_verif_decode.go"},
+         "params": {"quick": grid(g=[0, 1, 2]), "thorough": grid(g=[3])},
+         "cover": ["recovered-fetched"]},
     ],
     "stubs": ["state.Connector stub: CreateMessage/AddMessagesToMailbox/... fail on a symbolic schedule (size error or other)", "store.Store stub (map)", "crypto/sha256 -> injective stub (collision freedom assumed)", "internal/verifdb relational model"],
     "outside": ["header normalisation inside GetMessageHash beyond the four concrete literals", "histories longer than k", "LSUB"],
@@ -497,3 +502,5 @@ CHECKS["C11"]["outside"] = [o for o in CHECKS["C11"]["outside"] if not o.startsw
 CHECKS["C13"]["explanation"] += " VerifC13Wire: APPEND with a synchronising literal and FETCH of RFC822.SIZE / BODY[] / HEADER / TEXT / a partial on the wire through the real session loop, read as a client reads literals ({n} then n bytes)."
 CHECKS["C13"]["outside"] = [o for o in CHECKS["C13"]["outside"] if not o.startswith("the {n} framing")]
 CHECKS["C18"]["explanation"] = CHECKS["C18"].get("explanation", "") + " VerifC18DBPath: the SQLite URI getDatabaseConn builds from a user's path, read as SQLite reads it, names exactly that path (different users never share a database file). wirelines: gating by LOGIN / SELECT judged on the wire through the real session loop."
+
+CHECKS["C20"]["explanation"] += " VerifC20Wire: on the wire through the real session loop: an APPEND the remote side refuses is answered NO, the recovery mailbox is listed, selectable, holds one message whose BODY[] ends with exactly the appended bytes; an accepted APPEND of the same bytes is answered OK and found in the mailbox."
